@@ -31,7 +31,23 @@
 (*     are not defined, so only this much is demanded: the phases come in   *)
 (*     the order capture, target, bubble; the one target-phase offer goes   *)
 (*     to the focused widget and to nobody else; nothing follows a consume. *)
-(*     Who gets capture / bubble offers is left open.                       *)
+(*     Who gets capture / bubble offers is left open, except that it is ONE *)
+(*     set of ancestors in both phases: whoever (other than the focused     *)
+(*     widget) is offered the event in the capture phase is offered it in   *)
+(*     the bubble phase unless it was consumed, the capturing widgets among *)
+(*     those bubbled to were offered it in the capture phase, in the        *)
+(*     opposite order, and the focused widget is not bubbled to.            *)
+(*     R1m A handler may move the focus while the event is being routed     *)
+(*     (a focus command without consume).  The property speaks of "the      *)
+(*     focused widget" and ITS ancestors, so the whole route is that of one *)
+(*     widget that held the focus at some moment of the dispatch (at its    *)
+(*     start or after one of the changes made during it); which of them is  *)
+(*     left open.  Only the handlers offered the event itself can consume   *)
+(*     it: a consume returned for a notification (focus-in/out, mouse       *)
+(*     enter/leave) sent meanwhile concerns that notification.              *)
+(*     R1o On one route a widget is offered the event at most once as a     *)
+(*     capturing ancestor and at most once as the target or a bubbling      *)
+(*     ancestor (it is one or the other).                                   *)
 (*  R2 a mouse event is routed the same way along the chain root ->         *)
 (*     topmost child containing the point -> ... ; the deepest is the       *)
 (*     target.                                                              *)
@@ -42,6 +58,16 @@
 (*     frame has been laid out that does not contain the focused widget,    *)
 (*     the framework may (need not) move the focus elsewhere, which is a    *)
 (*     focus change like any other (one out, one in).                       *)
+(*     When the handler of a focus-out / focus-in notification itself       *)
+(*     returns a focus command, the order in which competing commands take  *)
+(*     effect is left open; demanded is then only: the notifications come   *)
+(*     in pairs, each pair one focus-out to the widget focused so far and   *)
+(*     one focus-in to another widget, which from then on is the focused    *)
+(*     one (so: per widget in/out alternate, at most one widget is focused),*)
+(*     each change is the effect of one focus command returned before it    *)
+(*     naming its new widget, no command is used for two changes, and at    *)
+(*     least one change happens when some command names a widget other      *)
+(*     than the one focused at the start.                                   *)
 (*  R4 per widget, mouse-enter and mouse-leave alternate starting with      *)
 (*     enter; after a mouse event exactly the chain is hovered; after       *)
 (*     the pointer leaves the root or the terminal loses focus nothing is.  *)
@@ -49,7 +75,9 @@
 (*     event, and the frame clears it (frames for other reasons, e.g. the   *)
 (*     start-up resize, are not forbidden);                                 *)
 (*     refresh: exactly the next frame is a full repaint; quit: the run     *)
-(*     ends after the event being handled and not otherwise; consume: R1;   *)
+(*     ends after the event being handled (or the frame whose notification  *)
+(*     handler asked for it: no further event is dispatched) and not        *)
+(*     otherwise; consume: R1;                                              *)
 (*     batches (of either kind, nested) are the concatenation of their      *)
 (*     members.                                                             *)
 EXTENDS Integers, Sequences, FiniteSets
@@ -117,14 +145,26 @@ WalkWhy(obs, route) ==
 
 (* R1u: the focused widget f is not part of the last drawn frame *)
 PhaseRank(ph) == CASE ph = "cap" -> 1 [] ph = "tgt" -> 2 [] ph = "bub" -> 3 [] OTHER -> 0
-UndrawnWhy(obs, f) ==
-  LET tg == {i \in 1..Len(obs) : obs[i].ph = "tgt"} IN
+InSeq(q, x) == \E i \in 1..Len(q) : q[i] = x
+UndrawnWhy(caps, obs, f) ==
+  LET tg == {i \in 1..Len(obs) : obs[i].ph = "tgt"}
+      capO == SelectSeq(obs, LAMBDA o : o.ph = "cap" /\ o.w # f)
+      bubO == SelectSeq(obs, LAMBDA o : o.ph = "bub")
+      C  == [i \in 1..Len(capO) |-> capO[i].w]      \* offered in the capture phase as ancestors, root first
+      B  == [i \in 1..Len(bubO) |-> bubO[i].w]      \* bubbled to, nearest first
+      BC == SelectSeq(Rev(B), LAMBDA w : caps[w])
+      consumed == obs # <<>> /\ Has(Last(obs).ret, "consume")
+  IN
   IF \E i \in 1..Len(obs) : PhaseRank(obs[i].ph) = 0 THEN "offer-wrong-phase"
   ELSE IF \E i \in tg : obs[i].w # f THEN "offer-wrong-tgt"
   ELSE IF \E i \in 1..(Len(obs) - 1) : Has(obs[i].ret, "consume") THEN "offer-after-consume"
   ELSE IF Cardinality(tg) > 1 THEN "offer-extra-tgt"
   ELSE IF tg = {} /\ ~(obs # <<>> /\ Has(Last(obs).ret, "consume")) THEN "offer-missing-tgt"
   ELSE IF \E i \in 1..(Len(obs) - 1) : PhaseRank(obs[i].ph) > PhaseRank(obs[i + 1].ph) THEN "offer-phase-order"
+  ELSE IF InSeq(B, f) THEN "offer-extra-bub"
+  ELSE IF ~consumed /\ \E i \in 1..Len(C) : ~InSeq(B, C[i]) THEN "offer-missing-bub"
+  ELSE IF B # <<>> /\ \E i \in 1..Len(BC) : ~InSeq(C, BC[i]) THEN "offer-missing-cap"
+  ELSE IF ~consumed /\ C # BC THEN "offer-path-order"
   ELSE ""
 
 (* ---- R3: focus notifications ---------------------------------------------------*)
@@ -159,6 +199,43 @@ FocusAfter(notes, fold) ==
   THEN (IF notes[Len(notes)].cls = "fin" THEN notes[Len(notes)].w ELSE notes[Len(notes) - 1].w)
   ELSE fold.cur
 
+(* A focus-out / focus-in handler itself answered with a focus command: the   *)
+(* order in which the competing commands take effect is open (see R3).        *)
+Nested(offers) == \E i \in 1..Len(offers) : offers[i].cls \in {"fin", "fout"} /\ FocusCmds(offers[i].ret) # <<>>
+
+RECURSIVE Without(_, _)
+Without(bag, x) == IF bag = <<>> THEN <<>> ELSE IF Head(bag) = x THEN Tail(bag) ELSE <<Head(bag)>> \o Without(Tail(bag), x)
+
+(* s = [cur, bag (targets of the focus commands returned so far and not used), *)
+(*      pend (first half of a pair), n (changes), sp (a change nobody asked    *)
+(*      for is still allowed, away from a widget not in the frame), ok]        *)
+RECURSIVE ChainFold(_, _, _, _)
+ChainFold(T, L, offers, s) ==
+  IF offers = <<>> \/ ~s.ok THEN s
+  ELSE LET o  == Head(offers)
+           s1 == IF o.cls \notin {"fin", "fout"} THEN s
+                 ELSE IF s.pend = <<>> THEN [s EXCEPT !.pend = <<o.cls, o.w>>]
+                 ELSE IF s.pend[1] = o.cls THEN [s EXCEPT !.ok = FALSE]
+                 ELSE LET out   == IF o.cls = "fout" THEN o.w ELSE s.pend[2]
+                          in    == IF o.cls = "fin" THEN o.w ELSE s.pend[2]
+                          named == InSeq(s.bag, in)
+                          spont == ~named /\ s.sp /\ ~Present(T, L, s.cur)
+                      IN IF out # s.cur \/ in = s.cur \/ ~(named \/ spont) THEN [s EXCEPT !.ok = FALSE]
+                         ELSE [s EXCEPT !.cur = in, !.pend = <<>>, !.n = @ + 1,
+                                        !.bag = IF named THEN Without(@, in) ELSE @,
+                                        !.sp = IF named THEN @ ELSE FALSE]
+       IN ChainFold(T, L, Tail(offers), [s1 EXCEPT !.bag = @ \o FocusCmds(o.ret)])
+
+(* verdict on the focus notifications among offers, and the focus afterwards *)
+FocusJudge(T, L, offers, cur0, spont) ==
+  IF Nested(offers) THEN
+     LET s   == ChainFold(T, L, offers, [cur |-> cur0, bag |-> <<>>, pend |-> <<>>, n |-> 0, sp |-> spont, ok |-> TRUE])
+         all == AllFocusCmds(offers)
+     IN [ok |-> s.ok /\ s.pend = <<>> /\ ((\E i \in 1..Len(all) : all[i] # cur0) => s.n >= 1), cur |-> s.cur]
+  ELSE LET notes == SelectSeq(offers, LAMBDA o : o.cls \in {"fin", "fout"})
+           fold  == FocusFold(AllFocusCmds(offers), cur0, <<>>)
+       IN [ok |-> FocusOK(T, L, notes, fold, spont), cur |-> IF spont THEN FocusAfter(notes, fold) ELSE fold.cur]
+
 (* ---- R4: hover ------------------------------------------------------------------*)
 (* per-widget alternation of the observed enter/leave notifications starting  *)
 (* from the current hover set; returns the resulting set, or {0} on a breach  *)
@@ -180,7 +257,8 @@ St0 == [focus |-> 1, hover |-> {}, redraw |-> FALSE, refresh |-> FALSE, quit |->
         ptr |-> <<>>, lay |-> 1, nframes |-> 0, over |-> FALSE,
         moved |-> FALSE,    \* context for signatures: focus moved since the last frame
         tfin |-> FALSE,     \* context for signatures: terminal focus-in seen since the last mouse event
-        relaid |-> FALSE]   \* context for signatures: a frame with another parent relation drawn since the last mouse event
+        relaid |-> FALSE,   \* context for signatures: a frame with another parent relation drawn since the last mouse event
+        qtick |-> FALSE]    \* context for signatures: the quit command was returned by a notification handler during a frame
 
 Notif == {"enter", "leave", "fin", "fout"}
 Sel(offers, S) == SelectSeq(offers, LAMBDA o : o.cls \in S)
@@ -190,19 +268,27 @@ StepChain(T, st, e) ==
     [] e.in.t = "mouse" -> HitChain(At(T, st.lay), T.lays[st.lay], e.in.x, e.in.y)
     [] OTHER -> <<>>
 
-StepFocus(st, e) == FocusFold(AllFocusCmds(e.offers), st.focus, <<>>)
 (* the start-up step ends with the first layout (no frame is drawn from it yet) *)
-StepFocusAfter(st, e) == IF e.in.t = "init" THEN FocusAfter(Sel(e.offers, {"fin", "fout"}), StepFocus(st, e))
-                         ELSE StepFocus(st, e).cur
+StepJudge(T, st, e) == FocusJudge(At(T, st.lay), T.lays[st.lay], e.offers, st.focus, e.in.t = "init")
+StepFocusAfter(T, st, e) == StepJudge(T, st, e).cur
 (* a non-mouse event while the focused widget is not part of the last drawn frame *)
 Undrawn(T, st, e) == e.in.t \in {"key", "custom", "init"} /\ ~Present(At(T, st.lay), T.lays[st.lay], st.focus)
+(* R1m: the widgets that held the focus at some moment of this dispatch *)
+Held(st, e) == {st.focus} \cup {e.offers[i].w : i \in {j \in 1..Len(e.offers) : e.offers[j].cls = "fin"}}
+RouteWhy(T, st, disp, f) ==
+  IF ~Present(At(T, st.lay), T.lays[st.lay], f) THEN UndrawnWhy(T.caps, disp, f)
+  ELSE WalkWhy(disp, Route(T, PathTo(At(T, st.lay), f)))
 StepHover(st, e) == HoverFold(Sel(e.offers, {"enter", "leave"}), st.hover)
+
+(* on one route a widget is a capturing ancestor at most once, and either the target or one bubbling ancestor *)
+Twice(disp) == \E i, j \in 1..Len(disp) : i < j /\ disp[i].w = disp[j].w /\ ((disp[i].ph = "cap") <=> (disp[j].ph = "cap"))
 
 StepWhy(T, st, e) ==
   LET disp  == Sel(e.offers, {e.in.cls})
       other == SelectSeq(e.offers, LAMBDA o : o.cls \notin (Notif \cup {e.in.cls}))
       chain == StepChain(T, st, e)
-      walk  == IF Undrawn(T, st, e) THEN UndrawnWhy(disp, st.focus)
+      walk  == IF e.in.t \in {"key", "custom", "init"}
+               THEN (IF \E f \in Held(st, e) : RouteWhy(T, st, disp, f) = "" THEN "" ELSE RouteWhy(T, st, disp, st.focus))
                ELSE IF chain = <<>> THEN (IF disp = <<>> THEN "" ELSE "offer-extra-" \o disp[1].ph)
                ELSE WalkWhy(disp, Route(T, chain))
       hv    == StepHover(st, e)
@@ -213,22 +299,22 @@ StepWhy(T, st, e) ==
   IN IF st.over \/ st.quit THEN "event-after-quit"
      ELSE IF st.redraw /\ e.in.cls # "S" THEN "redraw-lost"   \* the driver waits for the frame after its sentinel
      ELSE IF other # <<>> THEN "foreign-offer"
+     ELSE IF Twice(disp) THEN "offer-twice"
      ELSE IF walk # "" THEN walk
-     ELSE IF ~FocusOK(At(T, st.lay), T.lays[st.lay], Sel(e.offers, {"fin", "fout"}), StepFocus(st, e), e.in.t = "init")
-          THEN "focus-notifications"
+     ELSE IF ~StepJudge(T, st, e).ok THEN "focus-notifications"
      ELSE IF hv = {0} THEN "hover-alternation"
      ELSE IF hv # want THEN "hover-set"
      ELSE ""
 
-StepNext(st, e) ==
-  [st EXCEPT !.focus = StepFocusAfter(st, e),
+StepNext(T, st, e) ==
+  [st EXCEPT !.focus = StepFocusAfter(T, st, e),
              !.hover = StepHover(st, e),
              !.redraw = @ \/ AnyHas(e.offers, "redraw"),
              !.refresh = @ \/ AnyHas(e.offers, "refresh"),
              !.quit = @ \/ AnyHas(e.offers, "quit"),
              !.ptr = IF e.in.t = "mouse" THEN <<e.in.x, e.in.y>>
                      ELSE IF e.in.t = "tfout" THEN <<>> ELSE @,
-             !.moved = @ \/ StepFocusAfter(st, e) # st.focus,
+             !.moved = @ \/ StepFocusAfter(T, st, e) # st.focus,
              !.tfin = IF e.in.t = "tfin" THEN TRUE ELSE IF e.in.t = "mouse" THEN FALSE ELSE @,
              !.relaid = IF e.in.t = "mouse" THEN FALSE ELSE @]
 
@@ -249,8 +335,7 @@ FrameWhy(T, st, e) ==
   IN IF st.over THEN "frame-after-exit"
      ELSE IF e.items = <<>> \/ e.items[1].cls # "draw" THEN "frame-without-draw"
      ELSE IF other # <<>> THEN "foreign-offer"
-     ELSE IF ~FocusOK(At(T, e.lay), T.lays[e.lay], Sel(offers, {"fin", "fout"}), FocusFold(AllFocusCmds(offers), st.focus, <<>>), TRUE)
-          THEN "focus-notifications"
+     ELSE IF ~FocusJudge(At(T, e.lay), T.lays[e.lay], offers, st.focus, TRUE).ok THEN "focus-notifications"
      ELSE IF hv = {0} THEN "hover-alternation"
      ELSE IF hv # want THEN "hover-set"
      ELSE IF e.full >= 0 /\ st.nframes > 0 /\ (e.full = 1) # st.refresh THEN "refresh"
@@ -259,10 +344,11 @@ FrameWhy(T, st, e) ==
 FrameNext(T, st, e) ==
   LET offers == SelectSeq(e.items, LAMBDA o : o.cls # "draw") IN
   [st EXCEPT !.hover = FrameHover(st, e),
-             !.focus = FocusAfter(Sel(offers, {"fin", "fout"}), FocusFold(AllFocusCmds(offers), st.focus, <<>>)),
+             !.focus = FocusJudge(At(T, e.lay), T.lays[e.lay], offers, st.focus, TRUE).cur,
              !.redraw = Pending(e.items, FALSE),
              !.refresh = AnyHas(offers, "refresh"),
              !.quit = @ \/ AnyHas(offers, "quit"),
+             !.qtick = @ \/ AnyHas(offers, "quit"),
              !.lay = e.lay,
              !.moved = FALSE,
              !.relaid = @ \/ T.pars[e.lay] # T.pars[st.lay],
